@@ -4,8 +4,8 @@
 import json, os, subprocess, sys, time
 ROOT = os.path.dirname(os.path.dirname(os.path.abspath(__file__)))
 sid = sys.argv[1]
-checks = sys.argv[2:] or [sid[:3]]
 d = os.path.join(ROOT, "seeded", sid)
+checks = sys.argv[2:] or [json.load(open(os.path.join(d, "meta.json"))).get("property", sid[:3])]
 assert subprocess.run(["git", "-C", "/repo", "status", "--porcelain"], capture_output=True, text=True).stdout.strip() == "", "/repo not clean"
 subprocess.check_call(["git", "-C", "/repo", "apply", os.path.join(d, "patch.diff")])
 res = {}
@@ -21,6 +21,8 @@ try:
         print(c, "exit", r.returncode, lines[:2], drift[:1])
 finally:
     subprocess.check_call(["git", "-C", "/repo", "checkout", "--", "."])
+    # evidence written while /repo was changed is not evidence about /repo
+    subprocess.call(["git", "-C", ROOT, "checkout", "--", "evidence"])
 old = {}
 p = os.path.join(d, "result.json")
 if os.path.exists(p):
